@@ -98,9 +98,18 @@ fn back_f64(d: &mut Draw) -> Outcome {
         let a = f_unit3(d);
         u = fnormalize4(&[w, a[0] * rest, a[1] * rest, a[2] * rest]);
     }
+    let mut near_identity = false;
+    if d.chance(1, 6) {
+        // rotations by a tiny angle (and their negatives): s = +-cos(theta/2) is within rounding of +-1
+        let th = d.f64_log(1e-12, 1e-2);
+        let a = f_unit3(d);
+        let sg = if d.bool() { 1.0 } else { -1.0 };
+        u = fnormalize4(&[sg * (th / 2.0).cos(), sg * (th / 2.0).sin() * a[0], sg * (th / 2.0).sin() * a[1], sg * (th / 2.0).sin() * a[2]]);
+        near_identity = true;
+    }
     d.note("unit q [w,x,y,z]", &u);
     let q = mk_q(&u);
-    let cls = branch(&u);
+    let cls = if near_identity { "near-identity" } else { branch(&u) };
     let back = Quaternion::from(Matrix3::from(q));
     let dp = (back - q).magnitude();
     let dn = (back + q).magnitude();
@@ -111,7 +120,8 @@ fn back_f64(d: &mut Draw) -> Outcome {
     // four representations agree on a vector (f64, tolerance)
     let v = Vector3::new(d.f64_in(-10.0, 10.0), d.f64_in(-10.0, 10.0), d.f64_in(-10.0, 10.0));
     let want = qrot(&u, &v3(v));
-    let tol = 1e-12 * (1.0 + v.magnitude());
+    // all four paths evaluate the same quadratic form of q: they agree to rounding
+    let tol = 64.0 * f64::EPSILON * (1.0 + v.magnitude());
     for (name, got) in [
         ("quaternion", q * v),
         ("matrix3", Matrix3::from(q) * v),
@@ -126,6 +136,7 @@ fn back_f64(d: &mut Draw) -> Outcome {
 
 const RULE: &str = "all components of the unit quaternion(s) non-zero (and vector components distinct, non-zero)";
 const BR: &[(&str, u32)] = &[("trace>=0", 50), ("m00-dominant", 50), ("m11-dominant", 50), ("m22-dominant", 50)];
+const BRF: &[(&str, u32)] = &[("trace>=0", 50), ("m00-dominant", 50), ("m11-dominant", 50), ("m22-dominant", 50), ("near-identity", 50)];
 
 pub fn property() -> Property {
     let mut s = Vec::new();
@@ -137,7 +148,7 @@ pub fn property() -> Property {
     add!("four_reps-Q", "Q", four_reps::<Q>, 4000, 300_000, 48, &[("generic", 200)]);
     add!("four_reps-Fp", "Fp", four_reps::<Fp>, 4000, 300_000, 48, &[("generic", 200)]);
     add!("back_conversion-Q", "Q", back_q, 8000, 400_000, 16, BR);
-    add!("back_conversion-f64", "f64", back_f64, 8000, 400_000, 48, BR);
+    add!("back_conversion-f64", "f64", back_f64, 8000, 400_000, 64, BRF);
     Property {
         id: "C05",
         title: "Quaternion, Basis3, Matrix3 and Matrix4 describe one and the same rotation",
